@@ -801,6 +801,7 @@ func (c *Context) Ln(d, x *Decimal) (Condition, error) {
 			if _, err := tmp1.SetFloat64(math.Log(zFloat)); err != nil {
 				return 0, err
 			}
+			verifTape("ln.est", 0, &tmp1)
 		}
 	}
 
@@ -963,6 +964,7 @@ func (c *Context) Exp(d, x *Decimal) (Condition, error) {
 			cp = uint32(math.Ceil(ncp))
 		}
 	}
+	verifTape("exp.cp", int64(cp), nil)
 	var tmp2 Decimal
 	tmp2.SetInt64(int64(cp) * 23)
 	// if abs(x) > 23*currentprecision; assert false
@@ -1019,9 +1021,11 @@ func (c *Context) Exp(d, x *Decimal) (Condition, error) {
 	pf := float64(p)
 	nf := math.Ceil((1.435*pf - 1.182) / math.Log10(pf/rf))
 	if nf > 1000 || math.IsNaN(nf) {
+		verifTape("exp.n", -1, nil)
 		return 0, errors.New("too many iterations")
 	}
 	n := int64(nf)
+	verifTape("exp.n", n, nil)
 
 	// Stage 4
 	nc.Precision = uint32(p)
